@@ -14,12 +14,25 @@
 package http
 
 import (
+	"bytes"
 	"io"
 	"io/ioutil"
 	"net/http"
 )
 
 func readAll(body io.Reader, length int64) ([]byte, error) {
+	// a large body is collected as it arrives: a Content-Length that merely declares
+	// two gigabytes must not make the receiver allocate them.
+	const atOnce = 1 << 20
+	if length > atOnce {
+		var buffer bytes.Buffer
+		buffer.Grow(atOnce)
+		_, err := io.CopyN(&buffer, body, length)
+		if err == io.EOF {
+			err = io.ErrUnexpectedEOF
+		}
+		return buffer.Bytes(), err
+	}
 	if length > 0 {
 		data := make([]byte, length)
 		_, err := io.ReadFull(body, data)
